@@ -11,7 +11,9 @@ import (
 	"path/filepath"
 	"strings"
 	"sync"
+	"syscall"
 	"time"
+	"unsafe"
 
 	"github.com/go-gts/gts"
 	"github.com/go-gts/gts/seqio"
@@ -50,7 +52,7 @@ type cliResult struct {
 // cliEnv is a scratch HOME / cache / tmp directory for one history.
 type cliEnv struct {
 	dir     string
-	sin     int  // how standard input is handed over: 0 a pipe, 1 a regular file, 2 a regular file whose first line the caller has already consumed
+	sin     int  // how standard input is handed over: 0 a pipe, 1 a regular file, 2 a regular file whose first line the caller has already consumed, 3 a terminal (the input is then a file named as the last argument)
 	stale   bool // -o names a file that already exists and is longer than the output
 	inPlace bool // with sin == 1 and an output file: -o names the very file standard input is redirected from
 	envMode int  // which environment variables point at the cache directory (0: XDG_CACHE_HOME, 1: HOME only, 2: nothing usable, 3: relative path and another locale / time zone)
@@ -88,6 +90,31 @@ func newCliEnv() cliEnv {
 func (e cliEnv) remove() { os.RemoveAll(e.dir) }
 
 var cliExecs int64
+var ptyUnavailable int64 // runs that asked for a terminal on standard input and got a regular file instead
+
+// openPTY opens a pseudo-terminal pair (Linux: /dev/ptmx and /dev/pts/N) without any package outside the standard library.
+func openPTY() (master, slave *os.File, err error) {
+	master, err = os.OpenFile("/dev/ptmx", os.O_RDWR|syscall.O_NOCTTY, 0)
+	if err != nil {
+		return nil, nil, err
+	}
+	var n uint32
+	var unlock int32
+	if _, _, e := syscall.Syscall(syscall.SYS_IOCTL, master.Fd(), syscall.TIOCGPTN, uintptr(unsafe.Pointer(&n))); e != 0 {
+		master.Close()
+		return nil, nil, e
+	}
+	if _, _, e := syscall.Syscall(syscall.SYS_IOCTL, master.Fd(), syscall.TIOCSPTLCK, uintptr(unsafe.Pointer(&unlock))); e != 0 {
+		master.Close()
+		return nil, nil, e
+	}
+	slave, err = os.OpenFile(fmt.Sprintf("/dev/pts/%d", n), os.O_RDWR|syscall.O_NOCTTY, 0)
+	if err != nil {
+		master.Close()
+		return nil, nil, err
+	}
+	return master, slave, nil
+}
 var cliMu sync.Mutex
 
 // run executes gts with the given arguments; stdin is always a pipe. outfile=true adds "-o <file>" after the
@@ -96,6 +123,21 @@ func (e cliEnv) run(args []string, stdin []byte, outfile bool, exts ...string) c
 	full := append([]string{}, args...)
 	outPath := ""
 	stdinPath := ""
+	var tty *os.File
+	if e.sin == 3 {
+		// standard input is a terminal, as in an interactive shell: gts then takes the input file as its last argument
+		m, sl, err := openPTY()
+		if err != nil {
+			cliMu.Lock()
+			ptyUnavailable++
+			cliMu.Unlock()
+			e.sin = 1 // no pseudo-terminal to be had here: hand the file over as standard input instead
+		} else {
+			tty = sl
+			defer m.Close()
+			defer sl.Close()
+		}
+	}
 	if e.sin > 0 {
 		os.MkdirAll(filepath.Join(e.dir, "in"), 0o755)
 		stdinPath = filepath.Join(e.dir, "in", fmt.Sprintf("stdin%d.gb", time.Now().UnixNano()))
@@ -115,6 +157,9 @@ func (e cliEnv) run(args []string, stdin []byte, outfile bool, exts ...string) c
 			os.WriteFile(outPath, bytes.Repeat([]byte("stale content of an earlier output file\n"), 6000), 0o644)
 		}
 		full = append([]string{full[0], "-o", outPath}, full[1:]...)
+	}
+	if tty != nil {
+		full = append(full, stdinPath)
 	}
 	ctx, cancel := context.WithTimeout(context.Background(), 60*time.Second)
 	defer cancel()
@@ -181,6 +226,9 @@ func (e cliEnv) run(args []string, stdin []byte, outfile bool, exts ...string) c
 			panic(err)
 		}
 		cmd.Stdin = f
+		if tty != nil {
+			cmd.Stdin = tty
+		}
 	}
 	var so, se bytes.Buffer
 	cmd.Stdout, cmd.Stderr = &so, &se
